@@ -1,0 +1,10 @@
+// Copyright 2022 The go-python Authors.  All rights reserved.
+// Use of this source code is governed by a BSD-style
+// license that can be found in the LICENSE file.
+
+//go:build !verif
+
+package stdlib
+
+// verifYield is a no-op unless built with -tags verif (see verif_on.go).
+func verifYield(string) {}
